@@ -471,7 +471,7 @@ class Part(object):
 
     def _time_interpolator(self, quarter=False, inv=False, musical_beat=False):
         if len(self._points) < 2:
-            return lambda x: np.zeros(len(x))
+            return lambda x: np.zeros(np.shape(x))
 
         keypoints = defaultdict(lambda: [None, None])
         _ = keypoints[self.first_point.t]
